@@ -1,5 +1,5 @@
 """C02 — a released mutex is always handed on: no deadlock, no lost lock wake-up."""
-from props.shared import mu_groups, mu_lemmas, cv_groups
+from props.shared import mu_groups, mu_lemmas, cv_groups, mu_scan_groups
 
 ID = "C02"
 LEVEL = "other"
@@ -25,4 +25,4 @@ PARALLEL = 14
 
 def groups(tier):
     t = ["C02"]
-    return mu_groups(tags=t, tier=tier) + mu_lemmas(tags=t) + cv_groups(tags=t, which=["cv.wake_waiters"])
+    return mu_groups(tags=t, tier=tier) + mu_lemmas(tags=t) + cv_groups(tags=t, which=["cv.wake_waiters"]) + mu_scan_groups(tags=t, tier=tier)
